@@ -17,6 +17,7 @@ import (
 	"strconv"
 	"strings"
 
+	"golang.org/x/tools/go/ast/astutil"
 	"golang.org/x/tools/go/packages"
 )
 
@@ -61,16 +62,27 @@ func (o *Overlay) Sync(file, dir string) error {
 			n++
 		}
 	}
-	// go statements -> verifhook.Go (needs the hook import under some name)
-	hasGo := false
-	ast.Inspect(f, func(nd ast.Node) bool {
-		if _, ok := nd.(*ast.GoStmt); ok {
-			hasGo = true
+	// go statements -> verifhook.Go(func() { call })
+	ngo := 0
+	astutil.Apply(f, func(c *astutil.Cursor) bool {
+		gs, ok := c.Node().(*ast.GoStmt)
+		if !ok {
+			return true
 		}
+		var fn ast.Expr
+		if lit, isLit := gs.Call.Fun.(*ast.FuncLit); isLit && len(gs.Call.Args) == 0 {
+			fn = lit
+		} else {
+			fn = &ast.FuncLit{Type: &ast.FuncType{Params: &ast.FieldList{}}, Body: &ast.BlockStmt{List: []ast.Stmt{&ast.ExprStmt{X: gs.Call}}}}
+		}
+		c.Replace(&ast.ExprStmt{X: &ast.CallExpr{Fun: &ast.SelectorExpr{X: ast.NewIdent("verifhookgo"), Sel: ast.NewIdent("Go")}, Args: []ast.Expr{fn}}})
+		ngo++
 		return true
-	})
-	if hasGo {
-		return fmt.Errorf("%s: go statements are rewritten by SyncGo, not Sync", file)
+	}, nil)
+	if ngo > 0 {
+		imp := &ast.ImportSpec{Name: ast.NewIdent("verifhookgo"), Path: &ast.BasicLit{Kind: token.STRING, Value: strconv.Quote(HookPath)}}
+		f.Decls = append([]ast.Decl{&ast.GenDecl{Tok: token.IMPORT, Specs: []ast.Spec{imp}}}, f.Decls...)
+		n += ngo
 	}
 	var buf bytes.Buffer
 	if err := format.Node(&buf, fset, f); err != nil {
